@@ -35,7 +35,7 @@ def plan(ctx):
         if ctx.tier == "quick" and n > 11:
             singles = [s for s in allsets if len(s) <= 1]
             rest = [s for s in allsets if len(s) > 1]
-            pick = singles + rnd.sample(rest, min(len(rest), 16))
+            pick = singles + rnd.sample(rest, min(len(rest), 8))
             exhaustive = False
         else:
             pick = allsets
@@ -46,7 +46,7 @@ def plan(ctx):
         n = k + m
         s3 = [s for s in esets(n, hd - 1, hd - 1)]
         pick = [s3[0], s3[len(s3) // 2], s3[-1], (0,), (n - 1,)]
-        for b in (1, 16, 20, 33):
+        for b in ((1, 16, 20) if ctx.tier == "quick" else (1, 16, 20, 33)):
             for sse in (False, True):
                 obs.append(l1_ob(k, m, hd, pick, b=b, sse=sse, tag="len", idx=0))
     # symbolic erasure list on the smallest table (one query = all sets)
